@@ -22,6 +22,7 @@ type CLIEnv struct {
 	NoColorEnv bool
 	Clock      time.Time
 	OnNow      func(c *Ctx)
+	OnPrint    func(c *Ctx, s string)
 }
 
 // CLIResult is what a user observes from one invocation.
@@ -51,6 +52,9 @@ func RunCLI(env CLIEnv, args ...string) (res CLIResult) {
 		wrapped = &Ctx{Context: inner, Clock: env.Clock}
 		if env.OnNow != nil {
 			wrapped.OnNow = func() { env.OnNow(wrapped) }
+		}
+		if env.OnPrint != nil {
+			wrapped.OnPrint = func(s string) { env.OnPrint(wrapped, s) }
 		}
 		return wrapped
 	})
